@@ -152,6 +152,14 @@ def mapOpt {α β} (f : α → Option β) : List α → Option (List β)
     | some b, some bs => some (b :: bs)
     | _, _ => none
 
+def actionCell (p : Project) : Option Str → Str
+  | some a => actionName p a
+  | none => NONE
+
+def guardCell (p : Project) : Option Str → Str
+  | some x => guardName p x
+  | none => NONE
+
 /-- the state lookups of both loops of `GetTransitionTable` (`none` = KeyError) -/
 def resolveT (p : Project) (l : Loaded) (ini : Str) (t : Str × (Str × TRefs)) : Option RT :=
   if t.2.2.from_ == some ini then
@@ -160,9 +168,7 @@ def resolveT (p : Project) (l : Loaded) (ini : Str) (t : Str × (Str × TRefs)) 
     match t.2.2.from_.bind (dget l.states), t.2.2.to_.bind (dget l.states) with
     | some f, some n =>
       let next := if n == f then NONE else n
-      let action := match t.2.2.effect with | some a => actionName p a | none => NONE
-      let guard := match t.2.2.guard with | some x => guardName p x | none => NONE
-      some { isInit := false, src := f, dst := n, row := [f, t.2.1, next, action, guard] }
+      some { isInit := false, src := f, dst := n, row := [f, t.2.1, next, actionCell p t.2.2.effect, guardCell p t.2.2.guard] }
     | _, _ => none
 
 /-- the two loops over the transitions, and the final flattening -/
